@@ -137,19 +137,6 @@ Proof.
   inversion HP; subst. constructor; auto.
 Qed.
 
-Lemma no_break_no_cr : forall l, no_break l -> no_cr l.
-Proof.
-  intros l H. induction H as [|c l Hc _ IH]; [constructor|]. constructor; [|exact IH].
-  intros ->. discriminate.
-Qed.
-Lemma no_cr_lines : forall xs, Forall no_break xs -> no_cr (concat (map text_line xs)).
-Proof.
-  induction xs as [|l xs IH]; intros H; [constructor|]. inversion H; subst.
-  cbn [map concat]. apply Forall_app. split; [|apply IH; assumption].
-  unfold text_line. apply Forall_app. split; [apply no_break_no_cr; assumption|].
-  constructor; [discriminate|constructor].
-Qed.
-
 Section WholeSaved.
 Variable compress : codec -> bytes -> bytes.
 Variable decompress : codec -> bytes -> option bytes.
@@ -185,7 +172,7 @@ Proof.
             res_map (fun s => [(n, s)]) (load_text decompress f' n) = Ok [(n, concat (map text_line xs))]).
   { intros n xs [Hl [Hnb Hscal]].
     rewrite (load_text_written compress decompress codec_roundtrip f' n (concat (map text_line xs)));
-      [reflexivity|apply scalar_lines; exact Hscal|apply no_cr_lines; exact Hnb|exact Hl]. }
+      [reflexivity|apply scalar_lines; exact Hscal|exact Hl]. }
   specialize (HF Himp).
   destruct (read_parts_forall2 _ f' p minP _ _ H2 HF) as [pss [Hr Hc]].
   exists f', pss. split; [exact H1|]. split; [exact Hr|].
